@@ -161,7 +161,8 @@ Proof. vm_compute. reflexivity. Qed.
 (* ---------------------------------------------------------------- confinement of everything else *)
 Definition per_run_owners : list string :=
   ["RunnerState"; "rulesRunner"; "filterParams"; "nodePath"; "astWalker"; "goImporter"; "matchData";
-   "gogrep.MatcherState"; "typematch.MatcherState"; "quasigo.EvalEnv"; "quasigo.ValueStack"]%string.
+   "gogrep.MatcherState"; "typematch.MatcherState"; "quasigo.EvalEnv"; "quasigo.ValueStack";
+   "xsrcimporter.srcImporter"]%string.
 
 Definition guarded_fields : list (string * string) :=
   [("engineState", "typeByFQN"); ("engineState", "pkgCache")]%string.
@@ -169,6 +170,69 @@ Definition guarded_fields : list (string * string) :=
 Definition inventory : list (string * list string) := map (fun e => (fst e, map fst (snd e))) gen_structs.
 
 Lemma run_writes_confined : forallb (confinedb per_run_owners guarded_fields inventory) gen_run_writes = true.
+Proof. vm_compute. reflexivity. Qed.
+
+(* ---------------------------------------------------------------- what is shared without a lock is read-only
+   gen_run_writes now covers every package of the module that run-reachable code calls; gen_loadtime_types is the
+   regenerated set of struct types reachable from engine.ruleSet / engineState.env / the captures of the filter closures *)
+
+(* the scan is closed: a run-reachable function uses functions of scanned packages only, and none that is declared
+   load-only (whose writes are therefore not in gen_run_writes) *)
+Lemma run_xcalls_closed :
+  forallb (fun x : string * string * string =>
+             let '(_, pkg, callee) := x in str_in pkg gen_scanned_pkgs && negb (str_in callee gen_load_only)) gen_run_xcalls
+  && negb (Nat.eqb (List.length gen_run_xcalls) 0) = true.
+Proof. vm_compute. reflexivity. Qed.
+
+(* the object graph really contains what Load builds (the reachability did not silently lose a branch) *)
+Lemma loadtime_types_expected :
+  forallb (fun n => str_in n gen_loadtime_types)
+          ["goRuleSet"; "scopedGoRuleSet"; "goRule"; "goCommentRule"; "matchFilter"; "GoRuleGroup";
+           "quasigo.Env"; "quasigo.Func"; "typematch.Pattern"; "typematch.pattern";
+           "textmatch.containsLiteralMatcher"; "textmatch.prefixLiteralMatcher"; "textmatch.suffixLiteralMatcher";
+           "textmatch.eqLiteralMatcher"; "textmatch.prefixRunePredMatcher"]%string
+  && forallb (fun n => str_in n gen_loadtime_external) ["regexp.Regexp"; "gogrep.Pattern"; "types.Type"; "types.Interface"]%string
+  (* every filter constructor is accounted for: the closures capture nothing but their parameters *)
+  && forallb (fun n => existsb (fun e : string * list string => String.eqb (fst e) n) gen_filter_captures)
+             ["makeTypeIsFilter"; "makeRootSinkTypeIsFilter"; "makeVarContainsFilter"; "makeCustomVarFilter"; "makeTextMatchesFilter";
+              "makeFilePkgPathMatchesFilter"; "makeTypeImplementsFilter"]%string = true.
+Proof. vm_compute. reflexivity. Qed.
+
+(* no Load-time struct is an owner that confinement admits *)
+Lemma loadtime_disjoint : disjointb per_run_owners guarded_fields gen_loadtime_types = true.
+Proof. vm_compute. reflexivity. Qed.
+
+(* Load-time structs are inventoried and carry no synchronisation primitive of their own (a lock or an atomic inside a
+   pattern / matcher / compiled function would be shared state behind a protocol this model does not know) *)
+Lemma loadtime_structs_plain :
+  forallb (fun n => match find (fun e : string * list (string * string) => String.eqb (fst e) n) gen_structs with
+                    | Some e => forallb (fun f : string * string => negb (has_sub "sync." (snd f)) && negb (has_sub "atomic." (snd f))) (snd e)
+                    | None => false
+                    end) gen_loadtime_types = true.
+Proof. vm_compute. reflexivity. Qed.
+
+(* values of other modules' types that Load creates are only used through methods documented as safe for concurrent
+   use (regexp.Regexp: everything but the configuration method Longest; gogrep.Pattern: matching against a caller-owned
+   MatcherState) *)
+Definition ext_read_only (tp m : string) : bool :=
+  if String.eqb tp "regexp.Regexp" then
+    str_in m ["FindStringIndex"; "FindStringSubmatchIndex"; "FindIndex"; "FindSubmatchIndex"; "FindStringSubmatch"; "FindString";
+              "MatchString"; "Match"; "SubexpNames"; "SubexpIndex"; "NumSubexp"; "String"]%string
+  else if String.eqb tp "gogrep.Pattern" then str_in m ["MatchNode"; "NodeTag"]%string
+  else false.
+
+Lemma run_extcalls_read_only :
+  forallb (fun x : string * string * string => let '(_, tp, m) := x in ext_read_only tp m) gen_run_extcalls
+  && existsb (fun x : string * string * string => String.eqb (snd (fst x)) "gogrep.Pattern") gen_run_extcalls
+  && existsb (fun x : string * string * string => String.eqb (snd (fst x)) "regexp.Regexp") gen_run_extcalls = true.
+Proof. vm_compute. reflexivity. Qed.
+
+(* the scan looked into the packages that hold the Load-time objects' methods *)
+Lemma scan_covers :
+  forallb (fun n => str_in n gen_scanned_pkgs)
+          ["ruleguard"; "ruleguard/quasigo"; "ruleguard/typematch"; "ruleguard/textmatch"; "internal/xtypes"]%string
+  && existsb (fun w : string * string * string => String.eqb (snd (fst w)) "typematch.MatcherState") gen_run_writes
+  && existsb (fun w : string * string * string => String.eqb (snd (fst w)) "quasigo.ValueStack") gen_run_writes = true.
 Proof. vm_compute. reflexivity. Qed.
 
 (* Run treats what the caller hands in as read-only: no write site outside load-only code stores through a *RunContext
